@@ -182,6 +182,8 @@ class SymEnv:
         if n > 0:
             n = ctx.choose(self.out_len + 1, 'outlen%d' % i)
         out = ctx.fresh_bytes('cmd%d' % i, n, self.out_alpha)
+        if 13 in self.out_alpha:
+            d1(ctx, out)
         self.cmd_results.append((rec, code, out))
         return (code, out, ())
 
